@@ -51,3 +51,10 @@ open CaddyModel.C14
 #print axioms inPlace_store_not_atomic
 #print axioms resume_before_envfiles_fails
 #print axioms autosave_id_shortcut_fails
+#print axioms load_endpoint_autosaves_adapted_document
+#print axioms load_endpoint_refusal_touches_nothing
+#print axioms load_endpoint_force_is_exact_header
+#print axioms load_endpoint_matches_source
+#print axioms startup_touches_only_selected_storage
+#print axioms root_stable_per_storage
+#print axioms ca_storage_selection_matches_source
